@@ -45,7 +45,7 @@ def run_c10(pid, tier):
     t0 = time.time()
     v = Verdict(pid, tier, t0)
     quick = tier == 'quick'
-    dmax, cmax, grid, nsamp = (3, 4, '2,4,8,12', 2) if quick else (4, 7, '2,4,6,8,12,18,28', 3)
+    dmax, cmax, grid, nsamp = (3, 4, '2,4,8,12', 2) if quick else (4, 5, '2,4,8,12,20', 3)    # thorough: 625 settings x about 60 structures (about 40 min on 16 cores)
     outdir = os.path.join(scratch(), 'occ')
     os.makedirs(outdir, exist_ok=True)
     run_impl('drv_occupancy.py', [outdir, dmax, cmax, grid, common.seed(), nsamp], timeout=10000)
